@@ -32,6 +32,11 @@ def check(model: Model, run: Run) -> None:
                        "it leaves alone is printable ASCII; (3) format agreement - the callback writes backslash + two hex digits and that language is accepted by the "
                        "un-escaper's patterns. With (1)-(3) the serialiser is a homomorphism h with g(h(v)) = v for the un-escaper g. NOT decided: that the parser "
                        "rebuilds the same tree (its offset arithmetic: C14)")
+    from .c15_lang import valid_names_are_accepted
+    valid_names_are_accepted(model, run, "J24-valid-names-are-accepted")
+    from ..commonrules import values_compare_by_their_fields
+    values_compare_by_their_fields(model, run, "J23-filters-compare-by-their-fields", [f"{FILTER}.LDAPFilter"] + list(model.subclasses(f"{FILTER}.LDAPFilter", strict=True)),
+                                   "`from_string(str(f)) == f` is then decided by something other than the fields (and a memo keyed on the filter confuses different filters)")
     from ..commonrules import no_memoised_views_of_fields, memoised_results_are_immutable
     no_memoised_views_of_fields(model, run, "J19-text-is-computed-when-asked", [f"{FILTER}.LDAPFilter"] + list(model.subclasses(f"{FILTER}.LDAPFilter", strict=True)),
                                 "str() keeps giving the first text after a clause is added to or removed from the list the filter holds")
